@@ -18,6 +18,8 @@ Inductive jv :=
 | JInt (z : Z)
 | JStr (s : text)
 | JList (l : list jv)
+| JTuple (l : list jv)               (* a Python tuple: a mapper or a calc_data_id hook can put one into
+                                        the structure; json.dumps writes it as an array *)
 | JDict (d : list (text * jv)).      (* insertion-ordered, as a Python dict *)
 
 Definition jdict := list (text * jv).
@@ -28,6 +30,13 @@ Fixpoint jv_eqb (a b : jv) {struct a} : bool :=
   | JBool x, JBool y => Bool.eqb x y
   | JInt x, JInt y => Z.eqb x y
   | JStr x, JStr y => text_eqb x y
+  | JTuple xs, JTuple ys =>
+      (fix go (xs ys : list jv) {struct xs} : bool :=
+         match xs, ys with
+         | [], [] => true
+         | x :: xs', y :: ys' => jv_eqb x y && go xs' ys'
+         | _, _ => false
+         end) xs ys
   | JList xs, JList ys =>
       (fix go (xs ys : list jv) {struct xs} : bool :=
          match xs, ys with
@@ -119,7 +128,7 @@ Definition to_dict_list (sm : smapper) (f : forest) : list jv := map (to_dict sm
 (* Python truthiness of a JSON value *)
 Definition truthy (v : jv) : bool :=
   match v with
-  | JNull | JBool false | JInt 0 | JStr [] | JList [] | JDict [] => false
+  | JNull | JBool false | JInt 0 | JStr [] | JList [] | JTuple [] | JDict [] => false
   | _ => true
   end.
 
@@ -131,6 +140,7 @@ Definition truthy (v : jv) : bool :=
 Definition kids_of (d : jdict) : list jv :=
   match dget k_children d with
   | Some (JList l) => l
+  | Some (JTuple l) => l                 (* a tuple of items is iterated like a list *)
   | Some v => if truthy v then [JNull] else []
   | None => []
   end.
@@ -149,7 +159,11 @@ Fixpoint parse (j : jv) : pt :=
                | [] => []
                | (k, v) :: r =>
                    if text_eqb k_children k
-                   then match v with JList l => map parse l | _ => if truthy v then [PBad] else [] end
+                   then match v with
+                        | JList l => map parse l
+                        | JTuple l => map parse l
+                        | _ => if truthy v then [PBad] else []
+                        end
                    else find r
                end) d)
   | _ => PBad
@@ -182,6 +196,9 @@ Definition did_for (calc : info -> res did) (o : option jv) (i : info) : res did
   | Some (JInt z) => inl (DInt z)
   | Some (JStr s) => inl (DStr s)
   | Some (JBool b) => inl (DInt (if b then 1 else 0))
+  | Some (JTuple _) => inr E_CRASH       (* a tuple id is hashable and Python accepts it, but it is outside
+                                            DataIdType = Union[str, int] and not representable in [did]:
+                                            outside the model (the JSON theorems name this exclusion) *)
   | Some _ => inr E_TYPE                 (* unhashable key of _nodes_by_data_id *)
   end.
 
@@ -363,6 +380,40 @@ Definition node_from_dict (dd : dmapper) (calc : info -> res did) (next : nat)
   end.
 
 (* ------------------------------------------------------------------ *)
+(* JSON transport: what json.loads(json.dumps(v)) is for the value kinds of this
+   AST.  None/bool/int/str come back unchanged (ints are exact), arrays and
+   objects element-wise (dict keys are str here and keep their order), a tuple
+   comes back as a LIST.  json.dumps refuses none of these kinds, so the function
+   is total.  (Floats, non-str keys, bytes do not occur in the AST: nutree writes
+   none, and the harness's mappers write none.) *)
+Fixpoint json_rt (v : jv) : jv :=
+  match v with
+  | JNull | JBool _ | JInt _ | JStr _ => v
+  | JList l => JList (map json_rt l)
+  | JTuple l => JList (map json_rt l)
+  | JDict d => JDict ((fix go (e : list (text * jv)) : list (text * jv) :=
+                         match e with
+                         | [] => []
+                         | (k, x) :: r => (k, json_rt x) :: go r
+                         end) d)
+  end.
+
+(* JSON-stable values: no tuple anywhere *)
+Fixpoint tuple_free (v : jv) : bool :=
+  match v with
+  | JNull | JBool _ | JInt _ | JStr _ => true
+  | JList l => forallb tuple_free l
+  | JTuple _ => false
+  | JDict d => (fix go (e : list (text * jv)) : bool :=
+                  match e with
+                  | [] => true
+                  | (_, x) :: r => tuple_free x && go r
+                  end) d
+  end.
+
+Definition dict_tuple_free (d : jdict) : bool := forallb (fun kv => tuple_free (snd kv)) d.
+
+(* ------------------------------------------------------------------ *)
 (* rendering for the correspondence *)
 (* the three standard keys are rendered as small numbers (shorter case files) *)
 Definition sx_key (k : text) : sx :=
@@ -376,6 +427,7 @@ Fixpoint sx_jv (j : jv) : sx :=
   | JInt z => L [A 2; A z]
   | JStr s => L [A 3; sx_text s]
   | JList l => L [A 4; L (map sx_jv l)]
+  | JTuple l => L [A 6; L (map sx_jv l)]
   | JDict d => L [A 5; L ((fix go (e : list (text * jv)) : list sx :=
                             match e with
                             | [] => []
